@@ -168,7 +168,8 @@ class C11(Check):
             "nothing (side effects only); every exporting module also exports a class that its importers instantiate and call; negative cases (non-exported "
             "name through the module and through `import x from`, assignment to an exported member).  Each project is run in memory and "
             "from files.  State of the reference loader = (set of initialised modules, per-module counter and list); every project is one "
-            "model trace replayed on the implementation.")
+            "model trace replayed on the implementation.  Import statements that are EXECUTED MORE THAN ONCE: in a function / method called several times, in a loop body, "
+            "in both arms of an if, in a nested function, in a function and at module level (either order), in two functions - under 4 import forms / spellings: one initialisation, one shared instance.")
     assumptions = ["a module in a sub-directory imports only modules of that sub-directory (the grammar cannot name a parent directory)", "a module's exported counter is mutated through its own exported closures"]
     chunksize = 8
     quick_cap_s = 300
@@ -263,7 +264,9 @@ class C11(Check):
                     for target in range(n):
                         for form in ("module", "names"):
                             yield ("vis", seq, target, form)
-        ls = [("L0-negative-cases", list(negatives())), (f"Lv-visibility-matrix-modules-of-<={2 if tier == 'quick' else 3}-declarations", list(visibility(2 if tier == "quick" else 3))),
+        reps = [("rep", w, a, b) for w in self.REP_WHERE for a in range(len(self.REP_FORMS)) for b in range(len(self.REP_FORMS))
+                if b == 0 or w in ("fn-then-module", "module-then-fn", "two-functions", "if-arm-in-fn")]
+        ls = [("Lr-import-statements-executed-more-than-once", reps), ("L0-negative-cases", list(negatives())), (f"Lv-visibility-matrix-modules-of-<={2 if tier == 'quick' else 3}-declarations", list(visibility(2 if tier == "quick" else 3))),
               ("L0b-leaf-modules-without-exports", noexports(4, 1) if tier == "quick" else noexports(5, 1))]
         if tier == "quick":
             ls += [("L1-n<=2-all-combinations", all_combos(2)), ("L2-n=3-<=2-deviating-edges", deviating(3, 2)),
@@ -277,6 +280,8 @@ class C11(Check):
         return ls
 
     def describe(self, case):
+        if case[0] == "rep":
+            return {"import executed more than once": case[1], "forms": [self.REP_FORMS[case[2]][0], self.REP_FORMS[case[3]][0]]}
         if case[0] == "neg":
             return {"negative": case[1], "spelling": SPELLINGS[case[2]]}
         if case[0] == "vis":
@@ -388,7 +393,74 @@ class C11(Check):
                          "detail": {"files": files, "res": res.brief()}})
         return {"outcome": "neg-rejected" if not viol else "neg-ACCEPTED", "viol": viol, "nontrivial": True, "tags": ["neg"]}
 
+    # import statements that are EXECUTED MORE THAN ONCE (in a function called k times, in a loop body, in both arms of an if, in a function and at module
+    # level, under two spellings): the module initialises at the first execution only, every execution sees the same instance
+    REP_WHERE = ["fn-called-twice", "loop-body", "fn-then-module", "module-then-fn", "two-functions", "if-arm-in-fn", "nested-fn", "method-called-twice"]
+    REP_FORMS = [("import m", "m.bump()", "m.peek()"), ("import bump, peek from m", "bump()", "peek()"), ("import ./m", "m.bump()", "m.peek()"), ("import m.ms", "m.bump()", "m.peek()")]
+
+    def rep_project(self, case):
+        _, where, f1, f2 = case
+        mod = ('print "init m"\ncnt = 0\nexport bump: fn() -> int = fn() -> int {\n\tmodify cnt = cnt + 1\n\treturn cnt\n}\n'
+               'export peek: fn() -> int = fn() -> int {\n\treturn cnt\n}\nprint "init m done"\n')
+        i1, b1, p1 = self.REP_FORMS[f1]
+        i2, b2, p2 = self.REP_FORMS[f2]
+
+        def fnx(name, imp, bump):
+            return [f"{name} = fn() -> int {{", "\t" + imp, "\treturn " + bump, "}"]
+        L = ['print "start"']
+        exp = ["start", "init m", "init m done"]
+        if where == "fn-called-twice":
+            L += fnx("ld", i1, b1) + ["print ld()", "print ld()", "print ld()"]
+            exp += ["1", "2", "3"]
+        elif where == "loop-body":
+            L += ["from 0 to 3 {", "\t" + i1, "\tprint " + b1, "}"]
+            exp += ["1", "2", "3"]
+        elif where == "fn-then-module":
+            L += fnx("ld", i1, b1) + ["print ld()", i2, "print " + b2, "print ld()", "print " + p2]
+            exp += ["1", "2", "3", "3"]
+        elif where == "module-then-fn":
+            L += [i2, "print " + b2] + fnx("ld", i1, b1) + ["print ld()", "print ld()", "print " + p2]
+            exp += ["1", "2", "3", "3"]
+        elif where == "two-functions":
+            L += fnx("la", i1, b1) + fnx("lb", i2, b2) + ["print la()", "print lb()", "print la()", "print lb()"]
+            exp += ["1", "2", "3", "4"]
+        elif where == "if-arm-in-fn":
+            L += ["ld = fn(c: bool) -> int {", "\tif c {", "\t\t" + i1, "\t\treturn " + b1, "\t} else {", "\t\t" + i2, "\t\treturn " + b2, "\t}", "}",
+                  "print ld(true)", "print ld(false)", "print ld(true)"]
+            exp += ["1", "2", "3"]
+        elif where == "nested-fn":
+            L += ["outer = fn() -> int {", "\tinner = fn() -> int {", "\t\t" + i1, "\t\treturn " + b1, "\t}", "\treturn inner() + inner()", "}", "print outer()", "print outer()"]
+            exp += ["3", "7"]
+        elif where == "method-called-twice":
+            L += ["class Ld {", "\tconstructor(self) {}", "\tfn go(self) -> int {", "\t\t" + i1, "\t\treturn " + b1, "\t}", "}", "lo = Ld()", "print lo.go()", "print lo.go()", "lo2 = Ld()", "print lo2.go()"]
+            exp += ["1", "2", "3"]
+        L += ['print "end"']
+        return {"main.ms": "\n".join(L) + "\n", "m.ms": mod}, exp + ["end"]
+
+    def run_rep(self, case):
+        files, exp = self.rep_project(case)
+        viol = []
+        for path in ("run", "exec"):
+            d = driver.fresh_dir()
+            driver.write_files(d, files)
+            if path == "run":
+                res = driver.run(["run", "main.ms", "-q"], d)
+            else:
+                c, res = P.pipeline_exec(d, "main.ms")
+                if res is None:
+                    res = c
+            if driver.compile_rejected(res):
+                return {"outcome": "rep-rejected", "nontrivial": False, "tags": ["rep-rejected", f"rep-rejected-{case[1]}"], "show": res.out[-300:]}
+            if res.exit != 0 or res.lines() != exp:
+                viol.append({"sig": {"kind": "import-executed-more-than-once", "where": case[1], "path": path},
+                             "what": f"{self.describe(case)} ({path}): expected {exp}, got exit {res.exit} and {res.lines()} {res.err[-200:]}",
+                             "detail": {"files": files, "res": res.brief(), "expected_lines": exp}})
+                break
+        return {"outcome": "rep-ok" + ("-DIFF" if viol else ""), "viol": viol, "nontrivial": True, "tags": ["rep", f"rep-{case[1]}"]}
+
     def run_case(self, case):
+        if case[0] == "rep":
+            return self.run_rep(case)
         if case[0] == "neg":
             return self.run_neg(case)
         if case[0] == "vis":
